@@ -75,7 +75,6 @@ MULTI = [
     multi("rs_free", "h_rs_free", "the block dies, others stay, space reusable, INV_MM preserved; the arena lookup finds the arena holding the pointer", (5, 2), ("quick", "thorough")),
     multi("rs_realloc", "h_rs_realloc", "common prefix preserved (ghost byte), old block released when moved, INV_MM preserved", (4, 1), ("quick",)),
     multi("rs_realloc", "h_rs_realloc", "common prefix preserved (ghost byte), old block released when moved, INV_MM preserved", (5, 2), ("thorough",), to=3600),
-    multi("rs_calloc", "h_rs_calloc", "zeroed memory; zero-size, over-size and OVERFLOWING nmemb*size requests fail (element sizes sampled, count symbolic)", (4, 1), ("quick",)),
-    multi("rs_calloc", "h_rs_calloc", "zeroed memory; zero-size, over-size and OVERFLOWING nmemb*size requests fail (element sizes sampled, count symbolic)", (5, 2), ("thorough",), to=3600),
+    multi("rs_calloc", "h_rs_calloc", "zeroed memory; zero-size, over-size and OVERFLOWING nmemb*size requests fail (element sizes sampled, count symbolic)", (4, 1), ("quick", "thorough")),
 ]
 HARNESSES = tuple(HARNESSES) + tuple(MULTI)
